@@ -14,6 +14,7 @@ import NumqiProofs.CatalogueUpb
 import NumqiProofs.CatalogueCheb
 import NumqiProofs.CatalogueGenShifts
 import NumqiProofs.CatalogueSixparam
+import NumqiProofs.CatalogueUpbTables
 import Mathlib.Analysis.SpecialFunctions.Trigonometric.Basic
 
 set_option linter.unusedSectionVars false
@@ -240,6 +241,45 @@ theorem antoine_ppt (q : K) (h1 : -(3/2) ≤ q) (h2 : q ≤ 3/2) (x : Fin 9 → 
   have h0 : 0 ≤ 2 * (x 0 * x 0 + x 4 * x 4 + x 8 * x 8) :=
     mul_nonneg (by norm_num) (by have := mul_self_nonneg (x 0); have := mul_self_nonneg (x 4); have := mul_self_nonneg (x 8); linarith)
   linarith
+
+/-! ## closed-form values on the entangled branch, and the range guards of the model -/
+
+/-- the guards used by the driver are the hypotheses of the theorems -/
+theorem wernerInRange_iff (d : ℕ) (a : K) : wernerInRange d a = true ↔ 1 < d ∧ -1 ≤ a ∧ a ≤ 1 := by
+  simp [wernerInRange, and_assoc]
+
+theorem isotropicInRange_iff (d : ℕ) (a : K) :
+    isotropicInRange d a = true ↔ 1 < d ∧ -1 / ((d : K) * d - 1) ≤ a ∧ a ≤ 1 := by
+  simp [isotropicInRange, and_assoc]
+
+theorem unitInRange_iff (b : K) : unitInRange b = true ↔ 0 ≤ b ∧ b ≤ 1 := by simp [unitInRange]
+
+/-- **inside the guard the Werner matrix is a state** (trace one, PSD) -/
+theorem werner_checked (d : ℕ) (a : K) (h : wernerInRange d a = true) :
+    (∑ p, wernerM d a p p = 1) ∧ ∀ x, 0 ≤ qform (wernerM d a) x := by
+  obtain ⟨hd, h1, h2⟩ := (wernerInRange_iff d a).mp h
+  have hdK : (2 : K) ≤ d := by exact_mod_cast hd
+  refine ⟨werner_trace d a ?_, werner_psd d a h1 h2⟩
+  have : (d : K) * d - d * a = d * (d - a) := by ring
+  rw [this]; exact mul_ne_zero (by linarith) (by linarith)
+
+/-- **inside the guard the isotropic matrix is a state** -/
+theorem isotropic_checked (d : ℕ) (a : K) (h : isotropicInRange d a = true) :
+    (∑ p, isotropicM d a p p = 1) ∧ ∀ x, 0 ≤ qform (isotropicM d a) x := by
+  obtain ⟨hd, h1, h2⟩ := (isotropicInRange_iff d a).mp h
+  exact ⟨isotropic_trace d (by omega) a, isotropic_psd d (by omega) a h1 h2⟩
+
+/-- the REE closed forms are continuous with the separable branch: the entangled-branch value vanishes at the threshold
+(the reference state of the relative entropy is the boundary state itself) -/
+theorem wernerReeVal_threshold (log : K → K) (two : K) (d : ℕ) : wernerReeVal log two d (1 / (d : K)) = 0 := by
+  simp [wernerReeVal, relTerm]
+
+theorem isotropicReeVal_threshold (log : K → K) (d : ℕ) : isotropicReeVal log d (1 / ((d : K) + 1)) = 0 := by
+  simp [isotropicReeVal, relTerm]
+
+/-- the EOF value of the Werner family starts at zero: `h₂(0) = 0` (needs `sqrt 1 = 1`, `log 1 = 0`) -/
+theorem wernerEofVal_zero (sqrt log : K → K) (two : K) (hs : sqrt 1 = 1) (hl : log 1 = 0) : wernerEofVal sqrt log two 0 = 0 := by
+  simp [wernerEofVal, entropy2, entr, hs, hl]
 
 /-! ## kets: unit norm (signed-square form: the squares of the amplitudes sum to one) -/
 
@@ -599,6 +639,69 @@ theorem upb_bes_ppt (m dA dB : ℕ) (hB : 0 < dB) (u v : ℕ → ℕ → ℂ)
     funext fun r => funext fun c => ptB_upbCompl m dB hB u v r c
   rw [e]
   exact (upb_bes_projector m (dA * dB) _ (orthonormal_conj_right m dA dB hB u v h)).2.2.2 x
+
+/-! ### the catalogue tables satisfy `Orthonormal`, so the two theorems above apply to them
+
+`tableVecR party a t` is the real number `sgn·√sq` denoted by component `t` of local vector `a`; the product vectors are
+`prodVec` of the parties' vectors (nested from the right for four parties). -/
+
+/-- the product vectors of `load_upb('tiles')` as functions `ℕ → ℕ → ℂ` -/
+noncomputable def tilesW : ℕ → ℕ → ℂ :=
+  prodVec 3 (fun a t => (tableVecR (upbTiles.getD 0 []) a t : ℂ)) (fun a t => (tableVecR (upbTiles.getD 1 []) a t : ℂ))
+noncomputable def feng4x4W : ℕ → ℕ → ℂ :=
+  prodVec 4 (fun a t => (tableVecR (upbFeng4x4.getD 0 []) a t : ℂ)) (fun a t => (tableVecR (upbFeng4x4.getD 1 []) a t : ℂ))
+noncomputable def feng2x2x2x2W : ℕ → ℕ → ℂ :=
+  prodVec (2 * (2 * 2)) (fun a t => (tableVecR (upbFeng2x2x2x2.getD 0 []) a t : ℂ))
+    (prodVec (2 * 2) (fun a t => (tableVecR (upbFeng2x2x2x2.getD 1 []) a t : ℂ))
+      (prodVec 2 (fun a t => (tableVecR (upbFeng2x2x2x2.getD 2 []) a t : ℂ)) (fun a t => (tableVecR (upbFeng2x2x2x2.getD 3 []) a t : ℂ))))
+
+/-- **`tiles`: five orthonormal product vectors in `3 × 3`** (real square roots; all 25 overlaps computed) -/
+theorem upb_tiles_Orthonormal : Orthonormal 5 (3 * 3) tilesW :=
+  orthonormal_of_local2 5 3 3 (by norm_num) _ _ (fun a ha b hb => tiles_local a b ha hb)
+
+/-- **`feng4x4`: eight orthonormal product vectors in `4 × 4`** -/
+theorem upb_feng4x4_Orthonormal : Orthonormal 8 (4 * 4) feng4x4W :=
+  orthonormal_of_local2 8 4 4 (by norm_num) _ _ (fun a ha b hb => feng4x4_local a b ha hb)
+
+/-- **`feng2x2x2x2`: six orthonormal product vectors of four qubits** -/
+theorem upb_feng2x2x2x2_Orthonormal : Orthonormal 6 (2 * (2 * (2 * 2))) feng2x2x2x2W :=
+  orthonormal_of_local4 6 2 2 2 2 (by norm_num) (by norm_num) (by norm_num) _ _ _ _ (fun a ha b hb => feng2x2x2x2_local a b ha hb)
+
+/-- hence **the bound entangled state of `tiles` is a PSD projector of trace `9 − 5` and is PPT** (same for the other two tables,
+for `feng2x2x2x2` across the cut `A | BCD`) -/
+theorem upb_tiles_bes (x : ℕ → ℂ) :
+    (∑ r ∈ Finset.range (3 * 3), upbCompl 5 tilesW r r = ((3 * 3 : ℕ) : ℂ) - (5 : ℕ))
+    ∧ 0 ≤ (hform (3 * 3) (upbCompl 5 tilesW) x).re ∧ 0 ≤ (hform (3 * 3) (ptB 3 (upbCompl 5 tilesW)) x).re :=
+  ⟨(upb_bes_projector 5 (3 * 3) tilesW upb_tiles_Orthonormal).2.2.1,
+   ((upb_bes_projector 5 (3 * 3) tilesW upb_tiles_Orthonormal).2.2.2 x).1,
+   (upb_bes_ppt 5 3 3 (by norm_num) _ _ upb_tiles_Orthonormal x).1⟩
+
+theorem upb_feng4x4_bes (x : ℕ → ℂ) :
+    (∑ r ∈ Finset.range (4 * 4), upbCompl 8 feng4x4W r r = ((4 * 4 : ℕ) : ℂ) - (8 : ℕ))
+    ∧ 0 ≤ (hform (4 * 4) (upbCompl 8 feng4x4W) x).re ∧ 0 ≤ (hform (4 * 4) (ptB 4 (upbCompl 8 feng4x4W)) x).re :=
+  ⟨(upb_bes_projector 8 (4 * 4) feng4x4W upb_feng4x4_Orthonormal).2.2.1,
+   ((upb_bes_projector 8 (4 * 4) feng4x4W upb_feng4x4_Orthonormal).2.2.2 x).1,
+   (upb_bes_ppt 8 4 4 (by norm_num) _ _ upb_feng4x4_Orthonormal x).1⟩
+
+theorem upb_feng2x2x2x2_bes (x : ℕ → ℂ) :
+    (∑ r ∈ Finset.range (2 * (2 * (2 * 2))), upbCompl 6 feng2x2x2x2W r r = ((2 * (2 * (2 * 2)) : ℕ) : ℂ) - (6 : ℕ))
+    ∧ 0 ≤ (hform (2 * (2 * (2 * 2))) (upbCompl 6 feng2x2x2x2W) x).re
+    ∧ 0 ≤ (hform (2 * (2 * (2 * 2))) (ptB (2 * (2 * 2)) (upbCompl 6 feng2x2x2x2W)) x).re :=
+  ⟨(upb_bes_projector 6 _ feng2x2x2x2W upb_feng2x2x2x2_Orthonormal).2.2.1,
+   ((upb_bes_projector 6 _ feng2x2x2x2W upb_feng2x2x2x2_Orthonormal).2.2.2 x).1,
+   (upb_bes_ppt 6 2 (2 * (2 * 2)) (by norm_num) _ _ upb_feng2x2x2x2_Orthonormal x).1⟩
+
+/-- **bridge to the driver**: the product vectors that `get_upb_product` (`upbProductRow`, executed by the `upbbes` op) builds are the
+`prodVec` of the theorems — two parties directly, more parties one at a time (the last party carries the fastest index). -/
+theorem upb_product_is_prodVec {M : Type} [MonoidWithZero M] (u v : List M) (hv : 0 < v.length) (x : ℕ) (hx : x < u.length * v.length) :
+    (upbProductRow [u, v]).getD x 0 = prodVec v.length (fun _ t => u.getD t 0) (fun _ t => v.getD t 0) 0 x :=
+  upbProductRow_two u v hv x hx
+
+theorem upb_product_step {M : Type} [MonoidWithZero M] (rows : List (List M)) (v : List M) (hv : 0 < v.length) (x : ℕ)
+    (hx : x < (upbProductRow rows).length * v.length) :
+    (upbProductRow (rows ++ [v])).getD x 0
+      = prodVec v.length (fun _ t => (upbProductRow rows).getD t 0) (fun _ t => v.getD t 0) 0 x :=
+  upbProductRow_step rows v hv x hx
 
 /-- non-vacuity: two orthonormal product vectors `|0⟩|0⟩`, `|1⟩|1⟩` in `2 × 2` -/
 example : Orthonormal 2 (2 * 2) (prodVec 2 (fun a i => if a = i then (1 : ℂ) else 0) (fun a j => if a = j then (1 : ℂ) else 0)) := by
